@@ -15,6 +15,36 @@ CLAIMS = {
             "assumes list/bytes indexing semantics of CPython.",
             "abstract interpretation (affine domain, div/mod identities, Fourier-Motzkin entailment) over the AST",
             "B", "DESIGN.md section 4, C07"),
+    "C08": ("proof",
+            "Per-element transfer function of the string codec computed for all byte values, both flip states and all "
+            "positions/lengths at once on an abstract buffer of symbolic length; both round trips are evaluated on that "
+            "buffer (reversal, index and parity included) and must return the original element except for 0x7E; a "
+            "def-use rule shows the flip schedule does not depend on buffer contents.",
+            "Trusted: engine B, bytearray.reverse()/index-store semantics. Elements are integers in [0,255].",
+            "abstract interpretation over an abstract buffer (generic element, affine domain) + def-use taint rule",
+            "B", "DESIGN.md section 4, C08"),
+    "C11": ("proof",
+            "server_verification_hash and the published formula (C remainder written through floor-mod) are interpreted "
+            "over one shared path state; their difference must be the zero form on every path, for the whole 3-byte "
+            "challenge range; hash < 253^4 everywhere and hash >= 0 up to 11 092 003 by interval/FM bounds. "
+            "Non-negativity for the last 107 documented challenges is NOT decided (stated in evidence).",
+            "Trusted: engine B, sa/refs/verification_hash.py, Python floor-mod semantics.",
+            "abstract interpretation (affine domain with uninterpreted products, shared memo) vs reference formula",
+            "B", "DESIGN.md section 4, C11"),
+    "C12": ("proof",
+            "generate() of the three sequence-start classes interpreted with randrange as an arbitrary member of its "
+            "range (obligation: range non-empty); value and component ranges by Fourier-Motzkin bounds; "
+            "from_*_values(components).value - value is the zero form on every path. Covers every outcome of every draw.",
+            "Trusted: engine B; random.randrange contract.",
+            "abstract interpretation (affine domain, truncating-division identities, FM entailment)",
+            "B", "DESIGN.md section 4, C12"),
+    "C13": ("proof",
+            "Per-operation refinement of PacketSequencer against a two-variable reference transition system on a symbolic "
+            "state (any start, counter in 0..9), inductive counter invariant, and an ownership rule that nothing else "
+            "stores the state; together: agreement on every history.",
+            "Trusted: engine A/B, sa/refs/sequencer_model.py; SequenceStart.value is a pure read.",
+            "abstract interpretation per operation vs reference model + who-may-write rule",
+            "A+B", "DESIGN.md section 4, C13"),
 }
 
 NOT_YET = "check not built yet in this session (engine stage pending, see DESIGN.md section 8); no proxy is substituted"
